@@ -120,6 +120,7 @@ func (lb *LoadBalancer) DrainAll(timeout time.Duration) {
 }
 
 func (lb *LoadBalancer) ServeHTTP(w http.ResponseWriter, r *http.Request) {
+	verifYield("pre_claim", r, lb)
 	target, req, err := lb.claimTarget(r)
 	if err != nil {
 		SetErrorResponse(w, r, http.StatusServiceUnavailable, nil)
@@ -143,6 +144,7 @@ func (lb *LoadBalancer) claimTarget(req *http.Request) (*Target, *http.Request, 
 
 	target := lb.nextTarget()
 	if target == nil {
+		verifEmit("claim_none", req, lb)
 		return nil, nil, ErrorNoHealthyTargets
 	}
 
@@ -175,4 +177,5 @@ func (lb *LoadBalancer) updateHealthyTargets() {
 			lb.healthy = append(lb.healthy, target)
 		}
 	}
+	verifEmit("rotation", lb)
 }
